@@ -6,7 +6,7 @@ import (
 	"path/filepath"
 )
 
-func writeEvidence(e *environ, spec *propSpec, tier string, base uint64, bt *batch, b *built, wall, buildSecs, simSecs float64, unlisted int, knownSeen map[string]int, shrink []map[string]any, infra []string) {
+func writeEvidence(e *environ, spec *propSpec, tier string, base uint64, bt *batch, units []*unit, wall, buildSecs, simSecs float64, unlisted int, knownSeen map[string]int, shrink []map[string]any, infra []string) {
 	samples := bt.samples
 	if len(samples) == 0 {
 		samples = []any{"no sample recorded (no run completed)"}
@@ -37,8 +37,43 @@ func writeEvidence(e *environ, spec *propSpec, tier string, base uint64, bt *bat
 		"simulation_seconds":  simSecs,
 		"exhaustive":          false,
 	}
-	if b != nil && b.stats != nil {
+	if b := units[0].b; b != nil && b.stats != nil {
 		cov["weave"] = b.stats
+	}
+	if len(units) > 1 {
+		// a property decided by several worker binaries: one entry per part
+		rule := spec.Rule
+		comps := append([]component{}, spec.Components...)
+		faultKinds := append([]string{}, spec.FaultKinds...)
+		var parts []map[string]any
+		for i, u := range units {
+			pe := map[string]any{"harness": u.spec.ID, "test_package": u.spec.TestPkg, "workers": u.workers, "runs": bt.perProp[u.spec.ID]}
+			if u.b != nil && u.b.stats != nil {
+				pe["weave"] = u.b.stats
+			}
+			parts = append(parts, pe)
+			if i == 0 {
+				continue
+			}
+			rule += " || part " + u.spec.ID + ": " + u.spec.Rule
+			for _, c := range u.spec.Components {
+				c.Name = u.spec.ID + ": " + c.Name
+				comps = append(comps, c)
+			}
+			for _, k := range u.spec.FaultKinds {
+				dup := false
+				for _, have := range faultKinds {
+					dup = dup || have == k
+				}
+				if !dup {
+					faultKinds = append(faultKinds, k)
+				}
+			}
+		}
+		cov["rule"] = rule
+		cov["components"] = comps
+		cov["fault_kinds_available"] = faultKinds
+		cov["parts"] = parts
 	}
 	ev := map[string]any{
 		"property_id": spec.ID,
